@@ -206,11 +206,16 @@ def handle_relin(c):
     wrt = ['c.' + nm for nm in vals0]
     msgs, sig = [], ''
     colored = False
+    stepchg = False
     for ip, pt in enumerate(c['points']):
         vals = pvals(pt)
         if ip > 0:
             for nm, v in vals.items():
                 p.set_val('c.' + nm, v)      # no run_model
+            hs = (c.get('cs_steps') or [None] * len(c['points']))[ip]
+            if hs is not None:
+                comp.complex_stepsize = float(hs)      # public attribute; partials must not depend on it
+                stepchg = True
         J = p.compute_totals(of=ofs, wrt=wrt, return_format='dict')
         colored = colored or comp._coloring_info.coloring is not None
 
@@ -246,8 +251,11 @@ def handle_relin(c):
                                         'inputs %r%s (%s; %s=%r; config %s, force_alloc_complex=%s)' % (
                                             ip, 'after run_model' if ip == 0 else 'inputs changed, no run_model',
                                             j, k, nm, l, got, want, at_prev, ' ; '.join(srcs), nm, vals[nm].tolist(),
-                                            cfg, fac))
-                            sig = sig or ('partial' if ip == 0 else 'partial-at-stale-inputs')
+                                            cfg, fac) + (' [complex_stepsize changed to %r before this step]'
+                                                         % comp.complex_stepsize if stepchg else ''))
+                            sig = sig or ('partial' if ip == 0 else
+                                          ('partial-after-stepsize-change' if stepchg and not at_prev
+                                           else 'partial-at-stale-inputs'))
     # finally re-run: outputs at the last inputs
     p.run_model()
     vals = pvals(c['points'][-1])
@@ -263,7 +271,8 @@ def handle_relin(c):
             sig = sig or 'output'
     return {'res': '__none__', 'ok': not msgs, 'msg': '; '.join(msgs[:3]), 'sig': sig,
             'kind': 'relin%d:%s:%s%s%s:steps%d' % (len(trees), cfg, 'arr' if n > 1 else 'scalar',
-                                                 ':fac' if fac else '', ':colored' if colored else '',
+                                                 ':fac' if fac else '',
+                                                 (':colored' if colored else '') + (':hchg' if stepchg else ''),
                                                  len(c['points']) - 1),
             'src': ' ; '.join(srcs)}
 
